@@ -283,6 +283,7 @@ def run(ctx):
         o = s4_options(rng)
         jobs.append((s4, d, srcs, o))
         meta.append((d, srcs, o))
+    run_other_kinds(ctx, s4)
     for (d, srcs, o), (und, dn, dc, per) in zip(meta, core.pmap(job, jobs)):
         if und.timed_out or dn.timed_out or dc.timed_out:
             ctx.inconc("watchdog")
@@ -365,3 +366,140 @@ def run(ctx):
             sig += "|wide-characters-in-a-name"
         ctx.violation(sig, "line %d: got %r want %r" % (k, gl[:160], el[:160]), src_dir=d,
                       files={"expected.stdout": exp, "observed.stdout": dn.out, "undecorated.stdout": und.out}, info=info)
+
+
+# --------------------------------------------------------------------------
+# evtx / journal sources: strict line parser (no message model for these kinds)
+
+def fmt_regex(fmt):
+    """regex (bytes) matching the output of `fmt` for any instant"""
+    out = b""
+    i = 0
+    m = {"Y": rb"\d{4}", "m": rb"\d\d", "d": rb"\d\d", "e": rb"[ \d]\d", "H": rb"\d\d", "M": rb"\d\d", "S": rb"\d\d", "z": rb"[+-]\d{4}", "s": rb"-?\d+",
+         "j": rb"\d{3}", "a": rb"[A-Z][a-z]{2}", "b": rb"[A-Z][a-z]{2}", "%": rb"%"}
+    while i < len(fmt):
+        c = fmt[i]
+        if c != "%":
+            out += re.escape(c.encode())
+            i += 1
+        elif fmt[i + 1] == ".":
+            out += rb"\.\d{" + fmt[i + 2].encode() + rb"}"
+            i += 4
+        elif fmt[i + 1] == ":":
+            out += rb"[+-]\d\d:\d\d"
+            i += 3
+        else:
+            out += m[fmt[i + 1]]
+            i += 2
+    return out
+
+
+def other_job(args):
+    s4, files, o, cwd = args
+    env = core.base_env(tz=o["tzenv"][0], tmpdir=cwd)
+    und = core.run([s4, "--color", "never", "-t=+00:00"] + files, env, cwd=cwd, timeout=300)
+    dn = core.run([s4] + argv_of(o, "never") + ["--summary"] + files, env, cwd=cwd, timeout=300)
+    dc = core.run([s4] + argv_of(o, "always") + files, env, cwd=cwd, timeout=300)
+    return und, dn, dc
+
+
+def run_other_kinds(ctx, s4):
+    from checks import c10, c19
+    from vlib import fixtures
+    rng = ctx.rng
+    h = core.build_harness()
+    d = ctx.casedir("other")
+    pool = []
+    for p in fixtures.evtxs():
+        if "kernelpnp" in p:
+            q = os.path.join(d, "PnP Configuration.evtx")
+            gen.write(q, open(p, "rb").read())
+            recs, _ = c10.dump(h, q)
+            keyed = sorted(((t, i) for i, (rid, t) in enumerate(recs)))
+            pool.append(("evtx", q, [t for t, i in keyed]))
+    for p in fixtures.journals():
+        if os.path.getsize(p) < 3_000_000 or "ubuntu22" in p:
+            nm = {"ubuntu16.journal": "sys.journal", "ubuntu22x3.journal": "user-日本.journal"}.get(os.path.basename(p), os.path.basename(p))
+            q = os.path.join(d, nm)
+            gen.write(q, open(p, "rb").read())
+            pool.append(("journal", q, None))
+    jobs, meta = [], []
+    for cid in range(ctx.pick(60, 600)):
+        o = s4_options(rng)
+        # separators without a newline for these kinds (message boundaries are not known to the parser)
+        o["sep"] = rng.choice([s for s in SEP_CHOICES if b"\n" not in s[1] and s[1] != b"\x00"])
+        srcs = rng.sample(pool, rng.choice([1, 1, 2]))
+        files = [x[1] if rng.random() < 0.6 else os.path.relpath(x[1], d) for x in srcs]
+        jobs.append((s4, files, o, d))
+        meta.append((srcs, files, o))
+    for (srcs, files, o), (und, dn, dc) in zip(meta, core.pmap(other_job, jobs, workers=8)):
+        if und.timed_out or dn.timed_out or dc.timed_out:
+            ctx.inconc("watchdog")
+            continue
+        kinds = tuple(sorted({x[0] for x in srcs}))
+        ctx.evaluated(2, (o["file"], o["w"], o["dt"], o["fmt"], o["psep"], o["sep"][0], kinds))
+        for k in kinds:
+            ctx.count("kind:%s" % k)
+        info = {"argv_never": dn.argv, "env": dn.env, "cwd": d, "stderr_tail": dn.err[-200:]}
+        if SGR.sub(b"", dc.out) != dn.out:
+            ctx.violation("C13|colour-changes-bytes|%s" % "+".join(kinds), "--color always minus SGR sequences differs from --color never", info=info)
+            continue
+        psep = (o["psep"] if o["psep"] is not None else ":").encode()
+        sep = o["sep"][1]
+        names = [os.path.basename(f) if o["file"] == "-n" else f for f in files]
+        width = max(dwidth(n) for n in names) if o["w"] else 0
+        ffs = [(n + " " * max(0, width - dwidth(n))).encode() + psep for n in names] if o["file"] else [b""]
+        dre = re.compile(fmt_regex(o["fmt"] or DEFAULT_FMT) + re.escape(psep)) if o["dt"] else None
+        off = {"-u": 0, "-l": o["tzenv"][1], "-z": o["z"], None: None}[o["dt"]]
+        body = dn.out
+        rest = b""
+        nsep = 0
+        pos = 0
+        ok = True
+        evtx_k = 0
+        evtx_ts = [x[2] for x in srcs if x[0] == "evtx"]
+        why = ""
+        while pos < len(body):
+            if sep and body.startswith(sep, pos):
+                pos += len(sep)
+                nsep += 1
+                if pos >= len(body):
+                    break
+            ff = next((f for f in ffs if body.startswith(f, pos)), None)
+            if ff is None:
+                ok, why = False, "line does not start with the file field: %r" % body[pos:pos + 80]
+                break
+            which = ffs.index(ff) if o["file"] else None
+            pos += len(ff)
+            dtxt = None
+            if dre is not None:
+                m = dre.match(body, pos)
+                if not m:
+                    ok, why = False, "no datetime field after the file field: %r" % body[pos:pos + 60]
+                    break
+                dtxt = m.group(0)
+                pos = m.end()
+            nl = body.find(b"\n", pos)
+            line = body[pos:nl + 1] if nl >= 0 else body[pos:]
+            if dtxt is not None and line.startswith(b"<?xml") and len(evtx_ts) == 1 and len(srcs) == 1:
+                # first line of evtx record #k in print order: its instant comes from the independent dump
+                want = strftime(evtx_ts[0][evtx_k], off, o["fmt"] or DEFAULT_FMT).encode() + psep
+                if dtxt != want:
+                    ok, why = False, "evtx record #%d: datetime field %r, independent dump says %r" % (evtx_k, dtxt, want)
+                    break
+                evtx_k += 1
+            rest += line
+            pos += len(line)
+        if not ok:
+            ctx.violation("C13|strict-parse-failed|%s" % "+".join(kinds), why, files={"decorated.stdout": dn.out[:200000]}, info=info)
+            continue
+        if rest != und.out:
+            ctx.violation("C13|remainder-differs-from-undecorated|%s" % "+".join(kinds), "after deleting file field, datetime field and separators %d bytes remain, undecorated run printed %d" % (
+                len(rest), len(und.out)), files={"decorated.stdout": dn.out[:200000], "undecorated.stdout": und.out[:200000]}, info=info)
+            continue
+        files_, prog = c19.parse_summary(dn.err)
+        nmsg = (c19.to_int(prog.get("Printed evtx events")) or 0) + (c19.to_int(prog.get("Printed journal events")) or 0)
+        if sep and nsep != nmsg:
+            ctx.violation("C13|separator-count|%s" % "+".join(kinds), "%d separators for %d printed messages" % (nsep, nmsg), info=info)
+        elif len(ctx.samples) < 7 and o["file"] and o["dt"]:
+            ctx.sample({"kinds": kinds, "argv": dn.argv[1:], "messages": nmsg, "separators_seen": nsep, "stdout_head": dn.out[:160]})
